@@ -830,8 +830,47 @@ def rule_l(ctx):
            f'of the position that changed')
 
 
+def rule_m(ctx):
+  """The value spec is an input of the derived facts (sym_missing, sym_nondefault: defaults
+  and required keys come from it): a public method of Dict / List that stores a new
+  `_value_spec` resets the content caches (or notifies) on every normal path after the
+  store.  `use_value_spec(None)` stored None and returned, so `sym_nondefault()` kept
+  answering with the defaults of the spec that was dropped."""
+  idx = ctx.index
+  n = 0
+  for cls_fq in (S.DICT, S.LIST):
+    c = idx.cls(cls_fq)
+    for name, f in sorted(c.methods.items()):
+      if name.startswith('_') or name in ('__init__',):
+        continue
+      g = C.cfg_of(f.node)
+      # scope: the spec is DROPPED for good (a None store in the method that exists to change the
+      # spec).  Dict.clear parks the spec and re-applies it, custom_apply / the type-check-off
+      # branch adopt a spec for a value whose content does not change; those were looked at (they
+      # would each need their own argument) and are not armed.
+      if name != 'use_value_spec':
+        continue
+      stores = [k for k in g.nodes if k.kind == 'stmt' and isinstance(k.ast, ast.Assign)
+                and any(A.dotted(t) == 'self._value_spec' for t in k.ast.targets)
+                and isinstance(k.ast.value, ast.Constant) and k.ast.value.value is None]
+      if not stores:
+        continue
+      fresh = lambda k: k.ast is not None and any(
+          (A.call_name(x) or '').split('.')[-1] in ('_sym_reset_content_caches', '_notify_field_updates', 'apply', 'use_value_spec')
+          for x in k.calls())
+      for st in stores:
+        n += 1
+        w = g.can_skip(st, fresh)
+        ctx.ob('C09.m', f'{c.name}.{name}#spec-dropped', w is None,
+               'after a new value spec is stored, the content caches are reset (or the change is notified) on every normal path',
+               f'{f.module.relpath}:{st.lineno}', f'a path returns with the caches of the previous spec: {w}')
+  if n < 2:
+    raise AnalysisError(f'C09.m: only {n} spec-dropping stores found')
+
+
 def run(ctx):
   ctx.consult(*FILES)
+  rule_m(ctx)
   rule_l(ctx)
   from sa.rules import c10 as _c10
   _c10.rule_k(ctx, 'C09.k')   # the path carried by a FieldUpdate addresses the changed node
